@@ -118,6 +118,17 @@ func (s *Server) checkAcceptError(err error) bool {
 }
 
 func (s *Server) serveConnection(connections *connections.Connections, rw net.Conn) {
+	// The connection is registered, and thereby closed by Stop, only after it has been set up. Setting it up
+	// writes the CSM (on a secure listener this completes the handshake) and can block on a peer that does
+	// not read, so until then a stopped server closes the socket itself.
+	setupDone := make(chan struct{})
+	go func() {
+		select {
+		case <-s.ctx.Done():
+			_ = rw.Close()
+		case <-setupDone:
+		}
+	}()
 	inactivityMonitor := s.cfg.CreateInactivityMonitor()
 	requestMonitor := s.cfg.RequestMonitor
 	cc := s.createConn(coapNet.NewConn(rw), inactivityMonitor, requestMonitor)
@@ -126,6 +137,7 @@ func (s *Server) serveConnection(connections *connections.Connections, rw net.Co
 	}
 	connections.Store(cc)
 	defer connections.Delete(cc)
+	close(setupDone)
 
 	if err := cc.Run(); err != nil {
 		s.cfg.Errors(fmt.Errorf("%v: %w", cc.RemoteAddr(), err))
